@@ -312,7 +312,8 @@ def run_check(pid, tier, seed):
             except Exception as e:
                 stability = {"error": str(e)[:200]}
         unit_info[unit] = {"verus_verified": R.verified, "verus_errors": R.errors, "wall_s": round(R.wall, 2), "stability": stability,
-                           "rewrites": R.rewrites, "cut_points": R.cuts, "checker_cmd": R.cmd}
+                           "rewrites": R.rewrites, "cut_points": R.cuts, "checker_cmd": R.cmd,
+                           "constants_extracted_from_source": ["%s:%d %s" % (c["file"], c["line"], c["text"]) for c in getattr(getattr(R, "emitter", None), "const_records", [])]}
         undecided += ["unit %s: %s" % (unit, t) for t in R.tool_errors]
         assumptions += [a for a in R.assumptions if a not in assumptions]
         failed_fns = {}
